@@ -1482,16 +1482,11 @@ class sptensor:
         array([[ 0.4718..., -0.8816...],
                [-0.8816..., -0.4718...]])
         """
-        old = np.setdiff1d(np.arange(self.ndims), n).astype(int)
-        # tnt calculation is a workaround for missing sptenmat
-        mutatable_sptensor = (
-            self.copy().reshape((np.prod(np.array(self.shape)[old]), 1), old).squeeze()
-        )
-        if isinstance(mutatable_sptensor, (int, float, np.generic)):
+        if all(mode_size == 1 for mode_size in self.shape):
             raise ValueError(
                 "Cannot call nvecs on sptensor with only singleton dimensions"
             )
-        tnt = mutatable_sptensor.spmatrix().transpose()
+        tnt = self.to_sptenmat(rdims=np.array([n])).double().transpose()
         y = tnt.transpose().dot(tnt)
         if r < y.shape[0] - 1:
             _, v = scipy.sparse.linalg.eigs(y, r)
